@@ -179,7 +179,9 @@ def run_unit(name, workdir, vacuity=False, mutate=None, tag=''):
         if any(r in low for r in RESOURCE_MSGS):
             infra_msgs.append(msg)
             continue
-        if not any(v in low for v in VERIFICATION_MSGS):
+        # a diagnostic that carries a rustc error code (E0277, E0308, ...) is a compile error of the
+        # assembled text, never a failed proof obligation
+        if d.get('code') or not any(v in low for v in VERIFICATION_MSGS):
             infra_msgs.append(d.get('rendered', msg))
             continue
         # which function: any span inside an emitted item (the failing code), else prelude
